@@ -26,7 +26,7 @@ RT3 = math.sqrt(3.0)
 @st.composite
 def so_case(draw):
     eps = draw(st.one_of(st.sampled_from([1.0, 0.1]), logu(0.1, 2.5)))
-    opac = draw(st.one_of(st.just(1.0), logu(0.05, 20.0)))
+    opac = draw(st.one_of(st.just(1.0), logu(0.05, 20.0), logu(20.0, 1e5)))          # (dense material: the mean free path is far below any length written into the code)
     tbc = draw(st.one_of(st.just(1.0e3), logu(10.0, 1e4)))
     tau = draw(st.one_of(logu(0.05, 30.0), st.sampled_from([0.1, 1.0, 10.0])))
     # positions inside the heated layer (a few diffusion lengths), where the field is above the quadrature noise
